@@ -170,8 +170,25 @@ def c02_2(ctx: Ctx) -> RuleResult:
         ok = guard or in_sel
         res.add(f, c, "only realizations with non-zero weight contribute (|w| > 0 in the selector or guarding the solve)", ok,
                 "" if ok else "zero-weight (inactive, possibly garbage) realizations enter the solve", construct=f"{f.name}: active realizations")
+        # a per-realization mask expanded to the stacked (realization-major) rows must be
+        # np.repeat(mask, P): row k belongs to realization k // P
+        stacked = any(x[0] == "call" and x[1] in (G("numpy.reshape"), G("numpy.ravel")) for x in subterms(norm(M[1]))) or any(
+            x[0] == "call" and x[1][0] == "attr" and x[1][2] in ("reshape", "flatten", "ravel") for x in subterms(M[1]))
+        if stacked:
+            expanders = [x for x in ctx.X.closure(norm(sel)) if x[0] == "call" and x[1][0] == "global" and x[1][1] in ("numpy.repeat", "numpy.tile", "numpy.resize", "numpy.broadcast_to")
+                         and x[2] and any(y[0] == "cmp" for y in subterms(x[2][0]))]
+            ok = bool(expanders) and all(x[1] == G("numpy.repeat") and len(x[2]) == 2 and _is_pert_count(x[2][1]) and not any(k == "axis" for k, _v in x[3]) for x in expanders)
+            res.add(f, c, "the per-realization activity mask is expanded with np.repeat(mask, n_perturbations): rows of the stacked system are realization-major", ok,
+                    "" if ok else f"the activity mask is expanded as `{show(expanders[0], 70) if expanders else '?'}`: it is laid out perturbation-major while the stacked rows are realization-major, so rows of active realizations are dropped and rows of failed ones kept",
+                    construct=f"{f.name}: activity mask layout")
     res.floor = 8
     return res
+
+
+def _is_pert_count(t: Term) -> bool:
+    """t == <delta array>.shape[1] (the perturbation axis of an (R, P, V) array)."""
+    n = norm(t)
+    return n[0] == "sub" and n[2] == C(1) and n[1][0] == "attr" and n[1][2] == "shape"
 
 
 # --------------------------------------------------------------------- C02.3
@@ -481,3 +498,17 @@ def _is_expander(ctx: Ctx, h: Func) -> bool:
         else:
             return False
     return ok_plain and ok_exp
+
+
+# --------------------------------------------------------------------- C02.8
+@rule(P)
+def c02_8(ctx: Ctx) -> RuleResult:
+    """Samplers perturb free variables only (shared with C09.4): a perturbed fixed
+    variable adds an unexplained term to the function differences and biases the solve."""
+    from .c09 import c09_4
+
+    r = c09_4(ctx)
+    for i in r.instances:
+        i.rule = "C02.8"
+    r.rule, r.title = "C02.8", "perturbations are confined to the free variables of each sampler (mask & (samplers == idx))"
+    return r
